@@ -37,7 +37,7 @@ WATCHDOG = {"quick": 300, "thorough": 900}
 def lanes(tier):
     if tier == "quick":
         return [("plain", "plain", 240), ("san", "san", 48)]
-    return [("plain", "plain", 16000), ("san", "san", 2000)]
+    return [("plain", "plain", 16000), ("san", "san", 2000), ("vg-san", "vg", 16)]
 
 
 def blocks_of(start, cig):
